@@ -296,13 +296,33 @@ json.dump([in_child(job, j) for j in jobs], sys.stdout)
 '''
 
 
-def zygote(jobs):
+def zygote(jobs, ways=4):
     """every job (a list of texts compiled one after the other) runs in its own child forked from a
     process that has imported the compiler but never compiled anything: digest of the last output"""
-    p = subprocess.run([sys.executable, '-c', ZYGOTE % {'verif': VERIF}], input=json.dumps(jobs), capture_output=True, text=True, timeout=3000)
-    if p.returncode != 0:
-        raise RuntimeError('zygote failed: %s' % p.stderr[-2000:])
-    return json.loads(p.stdout)
+    chunks = [jobs[i::ways] for i in range(ways)]
+    procs = []
+    for ch in chunks:
+        p = subprocess.Popen([sys.executable, '-c', ZYGOTE % {'verif': VERIF}], stdin=subprocess.PIPE, stdout=subprocess.PIPE,
+                             stderr=subprocess.PIPE, text=True)
+        procs.append(p)
+    # feed and collect with one thread per process (a pipe may fill up)
+    import threading
+    outs = [None] * ways
+
+    def feed(i):
+        outs[i] = procs[i].communicate(json.dumps(chunks[i]), timeout=3000)
+    ths = [threading.Thread(target=feed, args=(i,)) for i in range(ways)]
+    for t in ths:
+        t.start()
+    for t in ths:
+        t.join()
+    res = [None] * len(jobs)
+    for i, p in enumerate(procs):
+        if p.returncode != 0:
+            raise RuntimeError('zygote failed: %s' % outs[i][1][-2000:])
+        for j, d in enumerate(json.loads(outs[i][0])):
+            res[i + j * ways] = d
+    return res
 
 
 SWEEPS = ['forward', 'reverse', 'evens-then-odds-reversed']
